@@ -15,6 +15,8 @@ MUTANTS = [
     {'name': 'clayton-inverse-exponent-sign', 'rule': 'D4.values', 'file': 'bivariate/clayton.py', 'old': "            return np.power((a + b - 1) / b, -1 / self.theta)", 'new': "            return np.power((a + b - 1) / b, 1 / self.theta)"},
     {'name': 'clayton-inverse-negated', 'rule': 'D4.values', 'file': 'bivariate/clayton.py', 'old': "            return np.power((a + b - 1) / b, -1 / self.theta)", 'new': "            return 1 - 2 * np.power((a + b - 1) / b, -1 / self.theta)"},
     {'name': 'gumbel-shortcut-returns-product', 'rule': 'D4.values', 'file': 'bivariate/gumbel.py', 'old': "        if self.theta == 1:\n            return y\n", 'new': "        if self.theta == 1:\n            return y * V\n"},
+    {'name': 'clayton-inverse-wrong-inner-exponent', 'rule': 'D4.values', 'file': 'bivariate/clayton.py', 'old': "            a = np.power(y, self.theta / (-1 - self.theta))", 'new': "            a = np.power(y, self.theta / (1 + self.theta))"},
+    {'name': 'clayton-inverse-b-uses-y', 'rule': 'D4.values', 'file': 'bivariate/clayton.py', 'old': "            b = np.power(V, self.theta)\n", 'new': "            b = np.power(y, self.theta)\n"},
 ]
 REWRITES = [
     {'name': 'item-instead-of-ravel', 'file': B, 'old': "return np.ravel(self.partial_derivative_scalar(u, _v))[0] - _y", 'new': "return self.partial_derivative_scalar(u, _v).item() - _y"},
